@@ -118,4 +118,43 @@ def scenarios():
                     _w(3, [_rq("me", "text"), _rq("mev", "text"), _rq("me", "text"),
                            _rq("mev", "text", loader="persist"),
                            _rq("me", "text", loader="persist")], realfs=realfs)]})
+  # 6: a package, a stub that only RE-EXPORTS one of its submodules, and a
+  # sibling stub that made the loader look at the package first
+  pk = {"pk0": {"module": "pkg", "is_pkg": True, "deps": [], "exports": {},
+                "stub_text": "X: int\n"},
+        "pk1": {"module": "pkg.sub_b", "deps": [], "exports": {},
+                "stub_text": "class B:\n    name: str\n"},
+        "pk3": {"module": "pkg.sub_a", "deps": [], "exports": {},
+                "stub_text": "class A2:\n    v: int\n"},
+        "d1": {"module": "d1", "deps": ["pk0", "pk1", "pk3"], "exports": {},
+               "stub_text": "from pkg import sub_a\ndef fa() -> sub_a.A2: ...\n"},
+        "d2": {"module": "d2", "deps": ["pk0", "pk1", "pk3"], "exports": {},
+               "stub_text": "from pkg import sub_b\n"},
+        "mp": {"module": "main", "deps": ["pk0", "pk1", "pk3", "d1", "d2"], "exports": {},
+               "src": "import d2\ny = d2.sub_b.B()\nz = y.name\n"},
+        "mq": {"module": "main", "deps": ["pk0", "pk1", "pk3", "d1", "d2"], "exports": {},
+               "src": "import d1\nr = d1.fa()\ns = r.v\n"}}
+  for form in ("text", "pickle"):
+    out.append({"programs": pk, "scripted": "package_reexport_after_sibling_" + form,
+                "workers": [
+                    _w0([_rq("mp", form), _rq("mq", form)]),
+                    _w(9, [_rq("mq", form, loader="persist"),
+                           _rq("mp", form, loader="persist"),
+                           _rq("mq", form, loader="persist"),
+                           _rq("mp", form, loader="persist")])]})
+  # 7: a hand-written stub that fails pytype's final verification, asked for
+  # again through the same loader
+  bad = {"bs0": {"module": "badstub", "deps": [], "exports": {},
+                 "stub_text": "from typing import List\n\nclass K:\n    x: int\n\n"
+                              "def f(x: List[int, str]) -> K: ...\n"},
+         "mq": {"module": "main", "deps": ["bs0"], "exports": {},
+                "src": "import badstub\n"},
+         "mp": {"module": "main", "deps": ["bs0"], "exports": {},
+                "src": "import badstub\ny = badstub.K()\nz = y.x\n"}}
+  out.append({"programs": bad, "scripted": "unverifiable_stub_asked_again",
+              "workers": [
+                  _w0([_rq("mp", "text"), _rq("mq", "text")]),
+                  _w(13, [_rq("mq", "text", loader="persist"),
+                          _rq("mp", "text", loader="persist"),
+                          _rq("mp", "text", loader="persist")])]})
   return out
